@@ -70,9 +70,7 @@ class RefPG:
         k = op[0]
         if k == 'import' and self.live(op[1]):
             return 'reimport-live'
-        if k == 'clone' and not self.live(op[1]):
-            return 'clone-absent-source'
-        if k == 'clone' and self.live(op[2]):
+        if k == 'clone' and self.live(op[1]) and self.live(op[2]):
             return 'reimport-live'
         return None
 
@@ -643,8 +641,6 @@ class C05(Check):
             ('C05_agree_reimport_live_refuted',
              run([['add_node', 'g0', 'n0', 'c0', None],
                   ['import', 'g0', [[1, {'NodeID': 'n1', 'Class': 'c0'}]], []], ['list_ids', 'g0']], 'reimport-live')),
-            ('C05_agree_clone_absent_source_refuted',
-             run([['clone', 'g0', 'g1']], 'clone-absent-source')),
         ]
 
 
